@@ -3,6 +3,7 @@
 -/
 import Stevia.Proofs.StrState
 import Stevia.Props.C11
+import Stevia.Proofs.GenStr
 
 namespace Stevia.C13
 open Stevia
@@ -66,5 +67,15 @@ theorem copy_forgets (w : Nat) (b1 b2 : ByteArray) (s : String) (hs : b1.size = 
 theorem load_reads_payload_only (w : Nat) (buf : ByteArray) (hw : w ≤ buf.size) (hl : PStr.recLen w buf ≤ buf.size - w) :
     PStr.fromBytes w buf = .ok (if (PStr.payload w buf).validateUTF8 then some (PStr.payload w buf) else none) ∧
     PStr.size w buf = w + PStr.recLen w buf := ⟨(PStr.fromBytes_spec w buf hw hl).1, rfl⟩
+
+/-- Tie through the translator (`Stevia.GenP.*`, regenerated from `prefix_str.rs` on every run): the translated `new`,
+    `copy_from_str` and `size` are the model's, so everything above holds for the code as written. -/
+theorem translated_prefix_str_is_the_model (W P N : Nat) (hP : P < 256 ^ W) (buf : ByteArray) (s : String) :
+    (GenP.new W P N buf).map (fun r => (r.1, r.2.isSome)) = (PStr.new W P buf).toOption ∧
+    (W + PStr.recLen W buf ≤ buf.size →
+      (∃ v, GenP.copy_from_str W P N (PStr.payload W buf) s = some v ∧
+        PStr.copyFromStr W buf s = buf.extract 0 W ++ v ++ buf.extract (W + PStr.recLen W buf) buf.size) ∧
+      GenP.size W P N (PStr.payload W buf) = some (PStr.size W buf)) :=
+  ⟨GenP.new_eq W P N hP buf, fun hw => ⟨GenP.copy_from_str_eq W P N buf s hw, GenP.size_eq W P N buf hw⟩⟩
 
 end Stevia.C13
